@@ -90,6 +90,8 @@ impl Parser {
                 .next()
                 .expect("Input schemas unexpectedly empty")
                 .to_owned();
+            #[cfg(feature = "verif-hooks")]
+            let next_name = crate::verif_hooks::pick_pending(&self.input_schemas, next_name);
             let (name, value) = self
                 .input_schemas
                 .remove_entry(&next_name)
